@@ -8,7 +8,7 @@ MODULE = "Nice.Props.C04Finish"   # re-exports Nice.Props.C04 and adds the finis
 THEOREMS = [f"Nice.Props.C04.{t}" for t in (
     "C04_success_needs_integrity", "C04_key_provenance", "C04_success_needs_fingerprint",
     "C04_response_needs_outstanding", "C04_response_at_most_once", "crc32_table_correct",
-    "validate_stages", "validate_frame", "C04_finish_then_validate_partial")]
+    "validate_stages", "validate_frame", "C04_finish_then_validate_partial", "C04_unmatched_is_response")]
 # C04_finish_then_validate is proved in PARTIAL form (short-term credentials, no fingerprint: the MAC that
 # finish writes passes the M-I stage of validate, all four compatibility modes); the composition with the
 # other stages, LONG_TERM and FINGERPRINT variants are decided by the tie: the `valm` right after every
@@ -70,8 +70,35 @@ def extra_attrs(rng, n=None):
     return out
 
 
+_CRC_T = []
+for _i in range(256):
+    _c = _i
+    for _ in range(8):
+        _c = (_c >> 1) ^ 0xedb88320 if _c & 1 else _c >> 1
+    _CRC_T.append(_c)
+
+
+def crc32_wlm2009(data):
+    """CRC-32 with the mistyped table entry of Windows Live Messenger 2009 (0x8bbeb8ea written as 0x8bbe8ea), the
+    value an MS-ICE2 peer may send and ONLY an MSICE2 agent may accept"""
+    c = 0xffffffff
+    for x in data:
+        l = _CRC_T[(c ^ x) & 0xff]
+        if l == 0x8bbeb8ea:
+            l = 0x8bbe8ea
+        c = l ^ (c >> 8)
+    return c ^ 0xffffffff
+
+
 def corrupt(rng, m):
     b = bytearray(m)
+    if len(b) >= 28 and b[-8:-4] == bytes([0x80, 0x28, 0, 4]) and rng.random() < 0.4:
+        # FINGERPRINT recomputed with the legacy (mistyped) CRC table; only messages whose CRC walk hits the bad entry
+        # (roughly a quarter) get a different value — the others are corrupted in the ordinary way below
+        legacy = crc32_wlm2009(bytes(b[:-8])) ^ 0x5354554e
+        if legacy != int.from_bytes(b[-4:], "big"):
+            b[-4:] = legacy.to_bytes(4, "big")
+            return bytes(b)
     k = rng.randrange(4)
     if k == 0:      # single byte
         i = rng.randrange(len(b)); b[i] ^= rng.randrange(1, 256)
